@@ -229,6 +229,27 @@ def _post_kind(fn: ast.AST) -> str:
     return kinds.pop() if len(kinds) == 1 else "mixed"
 
 
+def _serve_loop_handlers(fn: ast.FunctionDef) -> tuple[list[str], list[str]]:
+    """`_serve_stream`: exception classes handled by the `try` that wraps the `while True` loop (what ends the stream with an
+    error batch), and "what is tried | class -> first statement of the handler" for every `try` INSIDE the loop whose
+    handler leaves the loop silently (break / pass / continue / return)"""
+    outer: list[str] = []
+    inner: list[str] = []
+    for t in ast.walk(fn):
+        if isinstance(t, ast.Try) and any(isinstance(x, ast.While) for x in t.body):
+            for h in t.handlers:
+                outer.append(ast.unparse(h.type) if h.type is not None else "*")
+            for w in t.body:
+                if isinstance(w, ast.While):
+                    for n in ast.walk(w):
+                        if isinstance(n, ast.Try):
+                            for h in n.handlers:
+                                if isinstance(h.body[0], (ast.Break, ast.Pass, ast.Continue, ast.Return)):
+                                    tried = "; ".join(ast.unparse(x).split("=")[-1].strip() for x in n.body)
+                                    inner.append(f"{tried} | {ast.unparse(h.type) if h.type is not None else '*'} -> {type(h.body[0]).__name__.lower()}")
+    return outer, inner
+
+
 def _raise_guards(fn: ast.FunctionDef) -> list[tuple[str, str, str]]:
     """top-level `if <test>: raise <Class>("<message>")` statements of a method, in order: (test, class, message)"""
     out = []
@@ -316,6 +337,7 @@ def emit() -> dict[str, str]:
     finish_msg = _raise_msg(_fn(oc, "finish"))
     finish_guard = ast.unparse(_body(_fn(oc, "finish"))[0].test) if isinstance(_body(_fn(oc, "finish"))[0], ast.If) else ""
     nodata_msg = _raise_msg(_fn(oc, "validate"))
+    loop_outer, loop_inner = _serve_loop_handlers(_fn(t_server, "_serve_stream"))
     emit_guards = _raise_guards(_fn(oc, "emit"))
     finish_guards = _raise_guards(_fn(oc, "finish"))
     one_data = next((g for g in emit_guards if "_data_batch_idx" in g[0]), ("", "", ""))
@@ -356,6 +378,12 @@ def coerceAtPipe : Bool := {lb(coerce_sites["pipe"])}
 def coerceAtHttp : Bool := {lb(coerce_sites["http"])}
 /-- guard of `OutputCollector.finish` -/
 def finishGuard : String := {lean_str(finish_guard)}
+
+/-- `_serve_stream`: the handlers of the `try` around the `while True` loop — everything `state.process()` raises must reach
+the one that writes the error batch — and the handlers inside the loop that leave it silently (only the end of the
+client's input may) -/
+def serveLoopHandlers : List String := {sl(loop_outer)}
+def serveLoopSilentExits : List String := {sl(loop_inner)}
 
 /-- `OutputCollector.emit` / `finish`: the `if …: raise …` guards at the top of each, as "test -> Class: message" -/
 def emitGuards : List String := {sl([f"{t} -> {c}: {m}" for t, c, m in emit_guards])}
